@@ -639,6 +639,16 @@ class FnZones:
         name = mir.strip_generics((t.get("res") or "").lstrip("?"))
         args = t["args"]
         dest = t["dest"]
+        # checked element access: `s.get(i)` is Some exactly when i < len(s); remembered for the edge on which the Option (or the
+        # ControlFlow that `?` turns it into) is found to be Some / Continue
+        if not dest["p"]:
+            if re.search(r"(slice::<impl \[T\]>::get|vec::Vec::get|std::vec::Vec::get|slice::get)$", name) and len(args) == 2:
+                self.getfacts[dest["l"]] = (args[1], args[0], 1)
+            elif re.search(r"option::Option.*Try>?::branch$|<std::option::Option as std::ops::Try>::branch$", name) and args:
+                pl0 = mir.op_place(args[0])
+                if pl0 is not None and not pl0["p"] and pl0["l"] in self.getfacts:
+                    ix, ct, _ = self.getfacts[pl0["l"]]
+                    self.getfacts[dest["l"]] = (ix, ct, 0)
         # 1. effects through &mut arguments
         eff = LEN_EFFECT.get(name)
         for ai, a in enumerate(args):
@@ -769,6 +779,7 @@ class FnZones:
         pass
 
     affine = {}
+    getfacts = {}
 
     def edge(self, z, bi, succ_block):
         """refine the out-state of block bi along the edge to succ_block"""
@@ -809,6 +820,25 @@ class FnZones:
                                 A, B = self.affine[b_]
                                 z.add(B, A, c)
             elif is_int(dty):
+                # discriminant of the result of a checked access: on the Some / Continue edge the index is in range
+                dpl = mir.op_place(d)
+                if dpl is not None and not dpl["p"]:
+                    for s_ in self.b.blocks[bi]["s"]:
+                        if s_["k"] == "assign" and not s_["p"]["p"] and s_["p"]["l"] == dpl["l"] and s_["rv"]["r"] == "discr" and not s_["rv"]["p"]["p"] and s_["rv"]["p"]["l"] in self.getfacts:
+                            ixop, ctop, sv = self.getfacts[s_["rv"]["p"]["l"]]
+                            listed = [int(v) for v, bb in t["ts"] if bb == succ_block]
+                            alllisted = {int(v) for v, bb in t["ts"]}
+                            on_some = (listed == [sv] and succ_block != t["o"]) or (succ_block == t["o"] and not listed and alllisted == {1 - sv})
+                            if on_some:
+                                ln = self.len_node(mir.op_place(ctop)) if mir.op_place(ctop) is not None else None
+                                ix, ic, _ = self.op_node(ixop)
+                                if ln is not None:
+                                    z = z.copy()
+                                    self.nonneg(z, ln, None)
+                                    if ix is not None:
+                                        z.add(ix, ln, -1)
+                                    elif ic is not None:
+                                        z.add("Z", ln, -(ic + 1))
                 n, c0, _ = self.op_node(d)
                 if n is not None:
                     vals = [int(v) for v, bb in t["ts"] if bb == succ_block]
@@ -873,6 +903,7 @@ class FnZones:
     def solve(self):
         b = self.b
         self.affine = {}
+        self.getfacts = {}
         n = len(b.blocks)
         z0 = Zone()
         for i in range(1, b.argc + 1):
